@@ -109,7 +109,11 @@ theorem C05_quiescent_recv_not_enabled {fl : Flavour} {cfg : Cfg} {sf : St} {t :
     | none => rfl
     | some x => rw [hm] at this; simp at this
   simp only [microDet, hf] at hdet
-  obtain ⟨hb, hg, _⟩ := (recvStep_none_iff fl cfg sf t f hd n hw hform).mp hdet
+  have hdet' : recvStep fl cfg sf t f hd n [] = none := by
+    cases hr : recvStep fl cfg sf t f hd n [] with
+    | none => rfl
+    | some r => rw [hr] at hdet; simp at hdet
+  obtain ⟨hb, hg, _⟩ := (recvStep_none_iff fl cfg sf t f hd n hw hform).mp hdet'
   refine ⟨hb, ?_⟩
   unfold goneFor sendersGone at hg
   simp only [Bool.or_eq_false_iff, beq_eq_false_iff_ne, ne_eq] at hg
